@@ -19,6 +19,59 @@ func factsAll() {
 	factsHD()
 	factsWalletTx()
 	factsKeeper()
+	factsConfig()
+}
+
+// factsConfig: the constants of the capacity configuration arithmetic (C15).
+func factsConfig() {
+	const v1 = "poc/engine/spacekeeper/capacity"
+	fd := findFuncAny(v1, "usableBitLength")
+	if fd == nil {
+		fatal("capacity.usableBitLength not found")
+	}
+	var bls []string
+	p := loadPkg(v1)
+	ast.Inspect(fd, func(n ast.Node) bool {
+		if cl, ok := n.(*ast.CompositeLit); ok {
+			for _, el := range cl.Elts {
+				if v, ok := p.evalInt(el, 0); ok {
+					bls = append(bls, strconv.FormatInt(v, 10))
+				}
+			}
+			return false
+		}
+		return true
+	})
+	emit("/-- the literal returned by `usableBitLength()` in %s -/\ndef usableBitLength : List Nat := [%s]", v1, strings.Join(bls, ", "))
+	mc := massCoreDir()
+	intFactAbs("minValidDefaultBitLength", filepath.Join(mc, "poc"), "MinValidDefaultBitLength")
+	intFactAbs("pocMiB", filepath.Join(mc, "poc"), "MiB")
+	// the body of poc.DefaultPlotSize is `return uint64(bl * (1 << uint(bl-2)))`
+	save := *repo
+	*repo = "/"
+	pd := findFuncAny(strings.TrimPrefix(filepath.Join(mc, "poc"), "/"), "DefaultPlotSize")
+	body := "<missing>"
+	if pd != nil {
+		src := srcOf(strings.TrimPrefix(filepath.Join(mc, "poc"), "/"), pd)
+		var keep []string
+		for _, l := range strings.Split(src, "\n")[1:] {
+			t := strings.TrimSpace(l)
+			if t == "" || t == "}" || strings.HasPrefix(t, "//") {
+				continue
+			}
+			keep = append(keep, t)
+		}
+		body = strings.Join(keep, "; ")
+	}
+	*repo = save
+	emit("/-- body of `poc.DefaultPlotSize` in mass-core -/\ndef defaultPlotSizeBody : String := %s", leanStr(body))
+	// which size the checks compare with: ConfigureBySize compares the target with PlotSize(usableBitLength()[0]),
+	// the fill functions with PlotSize(poc.MinValidDefaultBitLength)
+	for _, fn := range []string{"ConfigureBySize", "fillSpaceListBySize", "fillSpaceListByPathSize", "generateFillSpaceListBySize", "generateFillSpaceListByPathSize", "checkOSDiskSizeByPath", "ConfigureByPath", "fillSpaceListByBitLength", "generateFillSpaceListByBitLength"} {
+		if findFuncAny(v1, fn) == nil {
+			fatal("capacity.%s not found", fn)
+		}
+	}
 }
 
 func factsKeeper() {
